@@ -822,6 +822,28 @@ Proof.
     + intros q Hq E. injection E as ->. contradiction.
 Qed.
 
+(** ** the window between table->Save() and the creation of the reverse db:
+    a table that loads with the right checksum but whose reverse db is missing
+    (or rejected by Load) still forces the rebuild of both *)
+Theorem missing_reverse_forces_rebuild s d p packs cy a vd fl :
+  lookup s (FDict d) = Some vd ->
+  cids_of s (tables_of d (dinfo_of (fv_cid vd))) = Some fl ->
+  get_tab a (KRev d) = None ->
+  exists bp l, snd (fst (compile s d p packs cy a)) = LDict d true true bp :: l.
+Proof.
+  intros Evd Efl Hrev. unfold Stale.compile. rewrite Evd, Efl. unfold Stale.compile_core.
+  rewrite Hrev. cbn [stale_ck]. rewrite orb_true_r.
+  destruct (match get_prism a (KPrism p) with Some _ => _ | None => true end).
+  - match goal with |- context [match get_tab ?X (KTab d) with Some _ => _ | None => _ end] => destruct (get_tab X (KTab d)) as [t|] end.
+    + destruct (t_files t).
+      * eexists. eexists. reflexivity.
+      * match goal with |- context [compile_packs s ?k packs ?X] => destruct (compile_packs s k packs X) end.
+        eexists. eexists. reflexivity.
+    + eexists. eexists. reflexivity.
+  - match goal with |- context [compile_packs s ?k packs ?X] => destruct (compile_packs s k packs X) end.
+    eexists. eexists. reflexivity.
+Qed.
+
 (** ** a deployment with no source change: fresh artefacts are kept *)
 
 Theorem noop_deploy_rewrites_nothing_partial s t d p cy files X :
